@@ -320,10 +320,10 @@ PROPS = {
     ),
     "C18": dict(
         level="model_checking",
-        runs=[dict(harness="c18", variant="thr", shards=15, tag="explore", build=dict(extra_sources=["mc/sched.c"], extra_cflags=["-DC18_OWN_SCHED"])),
-              dict(harness="c18", variant="tsan", shards=15, tag="tsan-free-run")],
+        runs=[dict(harness="c18", variant="thr", shards=16, tag="explore", build=dict(extra_sources=["mc/sched.c"], extra_cflags=["-DC18_OWN_SCHED"])),
+              dict(harness="c18", variant="tsan", shards=16, tag="tsan-free-run")],
         deadline=dict(quick=400, thorough=3000),
-        rule="ENABLE_THREADING build; 15 harness configurations: (1) threads borrow main's reference (get;put / get;get;put;put), (2) one reference handed to each thread, main releases its own "
+        rule="ENABLE_THREADING build; 16 harness configurations: (1) threads borrow main's reference (get;put / get;get;put;put), (2) one reference handed to each thread, main releases its own "
              "without joining, (3) the same on an object owning a child with its own callback, (4) N threads racing on first use of the key hash (seed source returns -1 once, then distinct values), "
              "(5) threads on disjoint trees; every interleaving of the 2-3 real threads at shared-memory-access granularity with at most p preemptions (stateless DFS with prefix replay, one process "
              "per execution); oracle per schedule: destroyed exactly once, 'freed' reported exactly once, no access inside a freed block, equal hashes in all threads at all times, plus a "
